@@ -13,7 +13,7 @@ import random
 
 import numpy as np
 
-from .. import tlc, gen
+from .. import tlc, gen, realdata
 from ..common import Evidence, Reporter, import_mir_eval, Machinery
 
 PROP = "C14"
@@ -30,6 +30,11 @@ def outcome(f, *a, **k):
 # ------------------------------------------------------------------ valid inputs for the special shapes
 def valid_input(me, T, task, shape, rng):
     t = T.get(task)
+    if shape == "repository-fixture":
+        ps = realdata.pairs(me, task)
+        if not ps:
+            raise Machinery("no repository fixture for " + task)
+        return rng.choice(ps)[1], {"_evaluate_only": task in ("segment", "chord", "transcription_velocity", "hierarchy")}   # raw segment/chord files are aligned by evaluate() only
     if shape in t.shapes or shape in gen.SHAPES:
         return t.gen(rng, shape), {}
     if task == "segment":
